@@ -309,4 +309,6 @@ def run(tier):
     offlattice_part(ck, tier)
     fd_part(ck, tier)
     massupdate_part(ck, tier)
+    from harness import c03
+    c03.dtype_part(ck, tier)                 # integer / single-precision starts: the trajectory is computed in double precision all the same
     return ck.finish()
